@@ -21,6 +21,10 @@ CHECKS["C09"] = ("E1-enum", "exploration",
   "Bounded-exhaustive: every chain of 2 blocks of <=2 operations (thorough: 3 ordinals, + 3-block chains) for every policy/value type; the log recorded by a real execution is replayed with Reset+ApplyOps on a second store in the same pre-state; deltas compared one by one, content, size, and for partial stores DeletedPrefixes and the result of save+load+merge onto non-empty bases.",
   "Mirrors the cached branch of exec.RunModule (Reset + ApplyOps) instead of calling it; RunModule itself is driven by the whole-system checks.",
   "bounded exhaustive enumeration of operation-log chains, differential replay-vs-execution on the real stores", "3/C09")
+CHECKS["C11"] = ("E4-histx", "model_checking",
+  "Explicit-state BFS (depth 5, thorough 6+) over the histories of one real FullKV per policy/value type: apply block / undo with recorded deltas / merge partial / save+load, states deduplicated on content+size+reversible stack, invariant SizeBytes()==sum(len k+len v) in every state; plus exhaustive squash-chain and 12-byte-limit sweeps. Every transition is a call into the real store.",
+  "Menu of 4 blocks and 3 partials per combo; merges clear the reversible stack; limit sweep on canonical encodings only.",
+  "explicit-state breadth-first search over store histories on the real implementation + bounded exhaustive sweeps", "2.4 E4, 3/C11")
 PENDING = {}
 def main():
     checks = []
@@ -50,6 +54,7 @@ def main():
             "add_only": True,
         },
         "engines": [
+            {"name": "E4-histx", "path": "harness/histx", "serves_properties": ["C11", "C03"], "kind_free_text": "explicit-state BFS over store histories, successors by replay on a fresh real store"},
             {"name": "E1-enum", "path": "harness/core", "serves_properties": [p for p in ALL if p in CHECKS and CHECKS[p][0]=="E1-enum"], "kind_free_text": "bounded-exhaustive enumerator over the real functions, 16-way parallel"},
         ],
         "checks": checks,
